@@ -83,23 +83,26 @@ def comments (indent : Nat) (cs : List Str) : Str :=
 
 /-! ## the unsigned-alias scan -/
 
-/-- the final `matches!` of `unsigned_integer_used` -/
+/-- the leaves of `uses_unsigned`: `U8 | U16 | U32 | U53 | U64 | USize` -/
 def isUnsigned : RustType → Bool
   | .prim .u8 | .prim .u16 | .prim .u32 | .prim .u53 | .prim .u64 | .prim .usize => true
   | _ => false
 
-/-- the `flat_map` of `unsigned_integer_used`: the scan looks exactly one level into `Generic`,
-`Option`, `Vec` and `HashMap`, and not at all into arrays and slices (which fall into the
-`RustType::Special(_) => vec![ty.clone()]` arm and are then not unsigned leaves themselves) -/
-def scanCandidates : RustType → List RustType
-  | .generic _ ps => ps
-  | .option t => [t]
-  | .vec t => [t]
-  | .hashMap k v => [k, v]
-  | .simple _ => []
-  | t@(.array _ _) => [t]
-  | t@(.slice _) => [t]
-  | t@(.prim _) => [t]
+mutual
+  /-- `fn uses_unsigned` inside `unsigned_integer_used` (since the `fix:` commit c7871b1): the scan
+  descends through `Generic` arguments, `Option`, `Vec`, arrays, slices and both sides of a
+  `HashMap`, to any depth (type mappings are not consulted) -/
+  def usesUnsigned : RustType → Bool
+    | .generic _ ps => usesUnsignedList ps
+    | .simple _ => false
+    | .option t | .vec t | .array t _ | .slice t => usesUnsigned t
+    | .hashMap k v => usesUnsigned k || usesUnsigned v
+    | t@(.prim _) => isUnsigned t
+  /-- `parameters.iter().any(uses_unsigned)` -/
+  def usesUnsignedList : List RustType → Bool
+    | [] => false
+    | t :: ts => usesUnsigned t || usesUnsignedList ts
+end
 
 /-- the types the scan starts from: alias targets, struct field types, tuple-variant types and
 struct-variant field types (type overrides and type mappings are not consulted; consts are not
@@ -115,7 +118,7 @@ def scannedTypes (d : ParsedData) : List RustType :=
 
 /-- `unsigned_integer_used` -/
 def unsignedIntegerUsed (d : ParsedData) : Bool :=
-  ((scannedTypes d).flatMap scanCandidates).any isUnsigned
+  (scannedTypes d).any usesUnsigned
 
 /-- `write_unsigned_aliases` (`ULong = Int` is what the source says) -/
 def unsignedAliases : Str :=
